@@ -3,3 +3,13 @@
     token game of Model/Blocks.v. *)
 From BV Require Export Corr.C12corr.
 Definition c01_mismatches := c12_mismatches.
+
+(* conditional flows leaving a task: (truth of the conditions as 1/0 in the order listed, tasks requested
+   downstream (indices, sorted), times the source task was requested, instance completed) *)
+From BV Require Export Model.FlowLeave.
+From BV Require Import Corr.C03corr.
+Definition leave_case_ok (c : list nat * list nat * nat * nat) : bool :=
+  let '(cn, requested, nsrc, completed) := c in
+  let o := leave false (map (fun x => negb (x =? 0)) cn) in
+  list_eqb Nat.eqb (sort (placed o)) requested && (nsrc =? (if asks_again o then 2 else 1)) && (completed =? 1).
+Definition c01_leave_mismatches := mism_from leave_case_ok 0.
